@@ -174,6 +174,18 @@ def run(rep, tier, seed, model_ok=True, effort=1):
             exp = "(Exit0 %s %s)" % (cs(new), cs(pep if pep is not None else new)) if code == 0 and new is not None else "ExitErr"
             cli_items.append("(%s,%s,%s,%s,%s,%s)" % (cs(s), cs(pat), v2gen.cflags(fl), cdate, cos(setv), exp))
             cli_meta.append(dict(args=args, exit=code, new=new))
+    # the legacy engine also serves `show`, in all its output forms, for legacy configurations
+    from . import project
+    for vp_, cur_ in (("{pycalver}", "v202001.0042-beta"), ("{semver}", "1.2.3"), ("v{year}{month}{build}{release}", "v202001.0042-beta"), ("{year}.{build_no}", "2020.0042")):
+        prj_ = project.TempProject(vp_, cur_, files={})
+        with prj_:
+            for flags_ in ([], ["--environ"], ["-e"]):
+                c_, o_, l_, e_ = prj_.run(impl, ["show", "--no-fetch"] + flags_)
+                rep.case(("show-dispatch", vp_, tuple(flags_)), nontrivial=c_ == 0)
+                shown = ("Current Version: %s" % cur_) in o_ or ("CURRENT_VERSION=%s" % cur_) in o_
+                if (c_ != 0 or not shown) and flags_ != ["-e"]:
+                    rep.violation("`bumpver show %s` fails / does not show the version of a legacy configuration (engine dispatch)" % " ".join(flags_),
+                                  input=dict(version_pattern=vp_, current_version=cur_, args=["show", "--no-fetch"] + flags_, exit=c_, out=(o_ + "\n".join(l_))[-300:]), **{"class": "show-environ-legacy"})
     # corpus: the bump date lies before the version's own date, for parts that are compared only through derived fields (quarter without month)
     import lexid
     for pat, d_old, d_new in [("{year}q{quarter}.{build_no}", dt.date(2026, 11, 15), dt.date(2026, 2, 10)), ("{year}q{quarter}.{build_no}", dt.date(2026, 6, 30), dt.date(2026, 3, 31)),
